@@ -1,5 +1,6 @@
 SPECIFICATION TSpec
 CONSTANT TranslateVaddr = TRUE
+CONSTANT RemoteNameCap = FALSE
 INVARIANT Verdict
 POSTCONDITION Accepted
 CHECK_DEADLOCK FALSE
